@@ -162,7 +162,8 @@ def draw_read_plan(rng, data, inside, faulty, legal=True):
         if rng.random() < 0.3:
             plan['eintr'] = sorted(set(rng.randint(1, 6)
                                        for _ in range(rng.choice([1, 2]))))
-        plan['mb_offsets'] = [c for c in cuts if c in set(inside)]
+        inside_set = set(inside)
+        plan['mb_offsets'] = [c for c in cuts if c in inside_set]
     if faulty and n:
         plan['fail_at'] = rng.randrange(0, n)
         plan['errno'] = rng.choice([errno.EIO, errno.EIO, errno.ENXIO,
@@ -876,7 +877,7 @@ def extra_phase(tier, seed, ws, agg, run_spec_on):
     return out
 
 
-TIERS = {'quick': 16000, 'thorough': 500000}
+TIERS = {'quick': 22000, 'thorough': 600000}
 WALL_CAP = {'quick': 240, 'thorough': 3300}
 DET_SAMPLE = {'quick': 24, 'thorough': 100}
 
